@@ -213,6 +213,134 @@ theorem liveness_correct (p : Prog) (hwf : WF p) (pick : Sched) (v : Nat) :
     (solve p pick).getD v false = true ↔ ∃ u, Chain p v u ∧ Root p u :=
   (solve_spec p pick v).trans (live_iff_chain p hwf v)
 
+/-! ## Removability is a property of the op *instance*, not of its class
+
+`visit_operation_impl` asks `would_be_trivially_dead(op)` for the op it visits.  The answer depends on
+the instance (`XdslModel/Liveness.lean`, `Inst` / `instWbd`: `RegisterAllocatedMemoryEffect` reports a
+`WRITE` for every result whose type is an allocated register), so it may not be remembered per op
+class.  The solver theorems above hold for arbitrary per-op flags; the theorems below say what the flag
+of an instance is and that it cannot be replaced by a constant of the class. -/
+
+/-- **`would_be_trivially_dead` of an instance**, for the effect traits of the model: the op is no
+terminator, no symbol op, has at least one `MemoryEffect` trait, every such trait is `NoMemoryEffect`,
+`MemoryReadEffect` or `RegisterAllocatedMemoryEffect`, and in the last case no *result* of this
+instance has an allocated register type. -/
+theorem instWbd_iff (i : Inst) :
+    instWbd i = true ↔
+      i.term = false ∧ i.sym = false ∧ i.traits ≠ [] ∧
+      (∀ t ∈ i.traits, t = Trait.noEffect ∨ t = Trait.read ∨ t = Trait.regAlloc) ∧
+      (Trait.regAlloc ∈ i.traits → ∀ b ∈ i.outAlloc, b = false) := by
+  unfold instWbd resultOnlyEffects getEffects
+  by_cases hnil : i.traits = []
+  · simp [hnil]
+  · have hne : i.traits.isEmpty = false := by
+      cases h : i.traits with
+      | nil => exact absurd h hnil
+      | cons _ _ => rfl
+    simp only [hne, Bool.false_eq_true, if_false, Bool.and_eq_true, Bool.not_eq_true',
+      List.all_eq_true, List.mem_flatMap, beq_iff_eq, forall_exists_index, and_imp]
+    constructor
+    · rintro ⟨⟨ht, hs⟩, hall⟩
+      refine ⟨ht, hs, hnil, fun t htm => ?_, fun hG b hb => ?_⟩
+      · cases t with
+        | noEffect => exact Or.inl rfl
+        | read => exact Or.inr (Or.inl rfl)
+        | regAlloc => exact Or.inr (Or.inr rfl)
+        | write => exact absurd (hall EffKind.write Trait.write htm (by simp [traitEffects])) (by decide)
+        | alloc => exact absurd (hall EffKind.alloc Trait.alloc htm (by simp [traitEffects])) (by decide)
+        | free => exact absurd (hall EffKind.free Trait.free htm (by simp [traitEffects])) (by decide)
+      · cases b with
+        | false => rfl
+        | true =>
+          have : EffKind.write ∈ traitEffects i Trait.regAlloc := by
+            unfold traitEffects
+            exact List.mem_append_left _ (List.mem_map.2 ⟨true, List.mem_filter.2 ⟨hb, rfl⟩, rfl⟩)
+          exact absurd (hall EffKind.write Trait.regAlloc hG this) (by decide)
+    · rintro ⟨ht, hs, _, hk, hG⟩
+      refine ⟨⟨ht, hs⟩, fun e t htm he => ?_⟩
+      rcases hk t htm with rfl | rfl | rfl
+      · simp [traitEffects] at he
+      · simpa [traitEffects] using he
+      · unfold traitEffects at he
+        rcases List.mem_append.1 he with h | h
+        · obtain ⟨b, hb, _⟩ := List.mem_map.1 h
+          obtain ⟨hb1, hb2⟩ := List.mem_filter.1 hb
+          have := hG htm b hb1
+          subst this
+          simp at hb2
+        · obtain ⟨_, _, rfl⟩ := List.mem_map.1 h
+          rfl
+
+/-- an assembly-style op (`RegisterAllocatedMemoryEffect` alone: `riscv.add`, `x86.ds.mov`,
+`test.allocatable`, …) is removable exactly when none of its results is an allocated register -/
+theorem instWbd_regAlloc (ia oa : List Bool) :
+    instWbd { traits := [Trait.regAlloc], inAlloc := ia, outAlloc := oa } = true ↔ ∀ b ∈ oa, b = false := by
+  rw [instWbd_iff]
+  simp
+
+/-- allocated *operand* registers only add `READ` effects: they never decide removability -/
+theorem instWbd_operands_irrelevant (i : Inst) (ia : List Bool) :
+    instWbd { i with inAlloc := ia } = instWbd i := by
+  apply Bool.eq_iff_iff.2
+  rw [instWbd_iff, instWbd_iff]
+
+/-- two instances of one class (same traits, same terminator/symbol status) with different answers:
+a class-level memo of `would_be_trivially_dead` is wrong for one of them whichever it stores -/
+theorem instWbd_not_class_constant :
+    ∃ i j : Inst, i.term = j.term ∧ i.sym = j.sym ∧ i.traits = j.traits ∧ instWbd i ≠ instWbd j :=
+  ⟨{ traits := [Trait.regAlloc], inAlloc := [false], outAlloc := [false] },
+   { traits := [Trait.regAlloc], inAlloc := [false], outAlloc := [true] }, rfl, rfl, rfl, by decide⟩
+
+/-- the same program with the flag of some ops lowered to "not removable" (`f op = false`) -/
+def lowerWbd (p : Prog) (f : Op → Bool) : Prog :=
+  { p with ops := p.ops.map fun o => { o with wbd := o.wbd && f o } }
+
+/-- **The flag of every instance matters, monotonically**: treating more op instances as not
+removable can only add live values (so a wrong "not removable" for one instance over-approximates,
+a wrong "removable" under-approximates — neither is the specified set in general, see
+`class_constant_flag_counterexample`). -/
+theorem live_mono_wbd (p : Prog) (f : Op → Bool) (v : Nat) (h : Live p v) : Live (lowerWbd p f) v := by
+  have hex : ∀ o : Op, ExecP p o → ExecP (lowerWbd p f) ({ o with wbd := o.wbd && f o }) := fun _ h => h
+  induction h with
+  | root hlt hr =>
+    refine Live.root hlt ?_
+    rcases hr with h | h | ⟨op, hop, hx, hw, hv⟩
+    · exact Or.inl h
+    · exact Or.inr (Or.inl h)
+    · refine Or.inr (Or.inr ⟨{ op with wbd := op.wbd && f op }, ?_, hex op hx, ?_, hv⟩)
+      · exact List.mem_map.2 ⟨op, hop, rfl⟩
+      · simp [hw]
+  | step hlt hf _ ih =>
+    obtain ⟨op, hop, hx, ha, hb⟩ := hf
+    exact Live.step hlt ⟨{ op with wbd := op.wbd && f op }, List.mem_map.2 ⟨op, hop, rfl⟩, hex op hx, ha, hb⟩ ih
+
+/-- the computed form: under any two schedules, every value live in `p` is live in `lowerWbd p f` -/
+theorem solve_mono_wbd (p : Prog) (f : Op → Bool) (pick₁ pick₂ : Sched) (v : Nat)
+    (h : (solve p pick₁).getD v false = true) : (solve (lowerWbd p f) pick₂).getD v false = true :=
+  (solve_spec _ pick₂ v).2 (live_mono_wbd p f v ((solve_spec p pick₁ v).1 h))
+
+/-- two `test.allocatable`-style ops of one class in one block: `A : 2 := op(0)` with an unallocated
+result register (removable instance), `B : 3 := op(1)` with an allocated one (not removable) -/
+def exInstA : Inst := { traits := [Trait.regAlloc], inAlloc := [false], outAlloc := [false] }
+def exInstB : Inst := { traits := [Trait.regAlloc], inAlloc := [false], outAlloc := [true] }
+
+def exInstProg (flagA flagB : Bool) : Prog :=
+  { nvals := 4, ops := [⟨[0], [2], flagA, 0⟩, ⟨[1], [3], flagB, 0⟩], pre := [0] }
+
+/-- the specified result for the per-instance flags: only the operand of `B` is live -/
+example : solve (exInstProg (instWbd exInstA) (instWbd exInstB)) (fun _ _ => 0)
+    = [false, true, false, false] := by decide
+
+/-- **No class-level flag reproduces it**: whichever single answer is used for both instances (the
+one of the instance visited first, whatever the visiting order is), the result differs from the
+specified one — with the removable instance's answer the operand of `B` is lost, with the other one
+the operand of `A` is marked. -/
+theorem class_constant_flag_counterexample (c : Bool) (pick : Sched) :
+    solve (exInstProg c c) pick ≠ solve (exInstProg (instWbd exInstA) (instWbd exInstB)) pick := by
+  rw [schedule_independent _ pick (fun _ _ => 0),
+    schedule_independent (exInstProg (instWbd exInstA) (instWbd exInstB)) pick (fun _ _ => 0)]
+  cases c <;> decide
+
 /-! ## Non-vacuity: a graph-region body where schedules really differ
 
 values 0…5; program order `A: effectful(0,1)`, `B: 0 := pure(2)`, `C: 1 := pure(3)`, `D: 4 := pure(2)`.
